@@ -320,6 +320,7 @@ def gen_history(rng, nops=30, comp=None, out=None, nbps=None, rich=False, rot=Tr
     header_n = len(bps)      # sets known to the header of the current output (exact once a block was written)
     total_n = len(bps)
     blocks_written = False
+    buffered = False         # the buffered block may hold records
     active = 0
     base = rng.choice([0, 0, 1500000000, 1 << 32])     # 0: instants at and right after the epoch
     for _ in range(nops):
@@ -335,9 +336,12 @@ def gen_history(rng, nops=30, comp=None, out=None, nbps=None, rich=False, rot=Tr
         elif x < 0.85:
             op = {"op": "wb"}
             blocks_written = True
+            buffered = False
         elif x < 0.90 and rot:
             op = {"op": "rot", "export": rng.random() < 0.5}
             blocks_written = False
+            if op["export"]:
+                buffered = False
             header_n = total_n
         elif x < 0.94 and total_n < 6:
             nb = gen_bp(rng, pools, rich=rich, maxitems=(rng.choice(sizes) if sizes else None))
@@ -346,6 +350,14 @@ def gen_history(rng, nops=30, comp=None, out=None, nbps=None, rich=False, rot=Tr
             total_n += 1
             if not blocks_written:
                 header_n = total_n
+        elif x < 0.955 and not blocks_written and not buffered:
+            # the active set is replaced in place (get_active_block_parameters_ref) while the output has no header yet;
+            # as documented for switching sets, write_block() right after makes the buffered (empty) block pick it up
+            nb = gen_bp(rng, pools, rich=rich, maxitems=(rng.choice(sizes) if sizes else None))
+            bps[active] = nb
+            h["ops"].append({"op": "wb"})
+            h["ops"].append({"op": "editbp", "bp": nb})
+            op = {"op": "wb"}
         elif x < 0.98:
             # documented precondition: a set added after the header was written is used only after rotation
             i = rng.randrange(0, header_n + 1)
@@ -358,6 +370,7 @@ def gen_history(rng, nops=30, comp=None, out=None, nbps=None, rich=False, rot=Tr
         else:
             op = {"op": "counts"}
         if op["op"] in ("qr", "aec", "mm"):
+            buffered = True
             blocks_written = True   # conservatively: a buffer call may flush
             if rng.random() < stats_p:
                 op["stats"] = gen_stats(rng)
